@@ -4,6 +4,10 @@ Term grammar (mirrors coq/Model/Ast.v):
   ["c", v, w, sg] | ["s", i] | ["o1", op, a] | ["o2", op, a, b] | ["sl", a, lo, hi]
   | ["pt", a, off, w, stride] | ["cat", [parts]] | ["sw", test, [[patterns|None, elem], ...]]
 patterns: list of strings over 0 1 -  (normalised), MSB first.
+Operands that are not Values (only where the API casts them: one operand of a binary operator, Cat parts, Mux arms,
+Array elements, bit_select/word_select offsets):
+  ["pi", v] a Python int | ["en", v, [member values], "E"|"I"] a member of a plain enum.Enum / enum.IntEnum class
+and ["ca", v] = Const(v) (shape inferred).  Their model is Value.cast: mk_const_auto / mk_enum_const.
 Shapes are computed here independently of the implementation (pyshape)."""
 import random
 from common import z, zlist, blit
@@ -27,12 +31,51 @@ def unify(shapes):
     return (max(sw, uw + 1), True) if hs else (uw, False)
 
 
+def const_shape(v):
+    """shape of Const(v) (mirror of utils.bits_for, used for generation budgets only)"""
+    if v > 0:
+        return (v.bit_length(), False)
+    if v == 0:
+        return (1, False)
+    return ((-v - 1).bit_length() + 1, True)
+
+
+def enum_shape(ms):
+    w, sg = 0, False
+    for m in ms:
+        mw, ms_ = const_shape(m)
+        if not sg and ms_:
+            sg, w = True, max(w + 1, mw)
+        elif sg and not ms_:
+            w = max(w, mw + 1)
+        else:
+            w = max(w, mw)
+    return (w, sg)
+
+
+_ENUMS = {}
+
+
+def enum_member(v, ms, kind):
+    """the member with value v of an enum.Enum ("E") / enum.IntEnum ("I") class with the given member values"""
+    import enum
+    key = (tuple(ms), kind)
+    if key not in _ENUMS:
+        base = enum.IntEnum if kind == "I" else enum.Enum
+        _ENUMS[key] = base("E" + kind, {f"M{i}": m for i, m in enumerate(ms)})
+    return _ENUMS[key](v)
+
+
 def pyshape(t, sigs):
     k = t[0]
     if k.startswith("d_"):
         return pyshape(expand(t, sigs), sigs)
     if k == "c":
         return (t[2], bool(t[3]))
+    if k in ("pi", "ca"):
+        return const_shape(t[1])
+    if k == "en":
+        return enum_shape(t[2])
     if k == "s":
         return tuple(sigs[t[1]])
     if k == "o1":
@@ -115,7 +158,7 @@ def expand(t, sigs):
         kk = _norm_index(w, a)
         return ["cat", [["sl", e, kk, w], ["sl", e, 0, kk]]]
     if k == "d_rep":
-        return ["cat", [t[1]] * t[2]]
+        return ["cat", [t[1]] * max(0, t[2])]
     if k == "d_match":
         return ["c", 0, 1, False]          # shape unsigned(1) in every arm
     if k == "d_idx":
@@ -128,9 +171,6 @@ def expand(t, sigs):
         w = pyshape(e, sigs)[0]
         a2, b2 = _norm_index(w, a), _norm_index(w, b)
         return ["sl", e, a2, b2]
-    if k == "d_step":
-        e, start, step, count = t[1], t[2], t[3], t[4]
-        return ["cat", [["sl", e, start + j * step, start + j * step + 1] for j in range(count)]]
     if k == "d_key":
         e, key = t[1], t[2]
         w = pyshape(e, sigs)[0]
@@ -141,11 +181,14 @@ def expand(t, sigs):
     if k in ("d_bsel", "d_wsel"):
         e, off, w = t[1], t[2], t[3]
         stride = 1 if k == "d_bsel" else w
-        if off[0] == "c":
-            ow, osg = off[2], off[3]
-            v = off[1] & ((1 << ow) - 1)
-            if osg and ow > 0 and v >> (ow - 1):
-                v -= 1 << ow
+        if off[0] in ("c", "pi", "ca", "en"):
+            if off[0] == "c":
+                ow, osg = off[2], off[3]
+                v = off[1] & ((1 << ow) - 1)
+                if osg and ow > 0 and v >> (ow - 1):
+                    v -= 1 << ow
+            else:
+                v = off[1]
             lo, hi = (v, v + w) if k == "d_bsel" else (v * w, (v + 1) * w)
             if hi <= pyshape(e, sigs)[0]:
                 return expand(["d_key", e, [lo, hi, None]], sigs)
@@ -157,11 +200,42 @@ def expand(t, sigs):
         elems, idx = t[1], t[2]
         w = max(0, pyshape(idx, sigs)[0])
         return ["sw", idx, [[[_binpat(w, i)], x] for i, x in enumerate(elems) if i < (1 << w)]]
+    if k == "d_array2":
+        rows, i, j = t[1], t[2], t[3]
+        if j[0] == "pi":
+            return expand(["d_array", [row[j[1]] for row in rows], i], sigs)
+        return expand(["d_array", [["d_array", row, j] for row in rows], i], sigs)
     raise ValueError(k)
 
 
 def coq_pattern(p):
     return "[" + "; ".join({"0": "Some false", "1": "Some true", "-": "None"}[c] for c in p) + "]"
+
+
+def coq_rawpat(p):
+    """a pattern as the user writes it: a str, an int, ["pc", v, w, sg] = Const(v, Shape(w, sg)), ["pe", v, members, kind] =
+    an enum member; the value of a constant pattern is computed by the model (const_norm / cast_enum)"""
+    ch = {"0": "C0", "1": "C1", "-": "CDash", " ": "CSpace", "\t": "CTab"}
+    if isinstance(p, str):
+        return "RStr [" + "; ".join(ch.get(c, "COther") for c in p) + "]"
+    if isinstance(p, int):
+        return f"RInt {z(p)}"
+    if p[0] == "pc":
+        return f"RInt (const_norm (Sh {z(p[2])} {blit(p[3])}) {z(p[1])})"
+    if p[0] == "pe":
+        return f"RInt (const_norm (cast_enum {zlist(p[2])}) {z(p[1])})"
+    raise ValueError(p)
+
+
+def build_pat(p):
+    if isinstance(p, (str, int)):
+        return p
+    from amaranth.hdl import Const, Shape
+    if p[0] == "pc":
+        return Const(p[1], Shape(p[2], bool(p[3])))
+    if p[0] == "pe":
+        return enum_member(p[1], p[2], p[3])
+    raise ValueError(p)
 
 
 def coq_expr(t, sigs):
@@ -179,33 +253,38 @@ def coq_expr(t, sigs):
         if k == "d_ror":
             return f"(mk_rotate_right {ce(t[1])} {z(t[2])})"
         if k == "d_rep":
-            return f"(mk_replicate {ce(t[1])} {t[2]}%nat)"
+            return f"(try1 1 (fun x => mk_replicate_z x {z(t[2])}) {ce(t[1])})"
         if k == "d_match":
             # the patterns as the user wrote them (t[3]); normalisation is the model's job
-            ch = {"0": "C0", "1": "C1", "-": "CDash", " ": "CSpace", "\t": "CTab"}
-            raw = [("RStr [" + "; ".join(ch.get(c, "COther") for c in p) + "]") if isinstance(p, str) else f"RInt {z(p)}"
-                   for p in t[3]]
-            return f"(oget (mk_matches_raw {ce(t[1])} [" + "; ".join(raw) + "]))"
+            raw = [coq_rawpat(p) for p in t[3]]
+            return f"(try1 4 (fun x => mk_matches_raw x [" + "; ".join(raw) + f"]) {ce(t[1])})"
         if k == "d_idx":
-            return f"(mk_index {ce(t[1])} {z(t[2])})"
+            return f"(try1 3 (fun x => mk_getitem_int x {z(t[2])}) {ce(t[1])})"
         if k == "d_slice":
             return f"(mk_slice {ce(t[1])} {z(t[2])} {z(t[3])})"
-        if k == "d_step":
-            return f"(mk_step_slice {ce(t[1])} {z(t[2])} {z(t[3])} {t[4]}%nat)"
         if k == "d_key":
             o = lambda x: "None" if x is None else f"(Some {z(x)})"
-            return f"(oget (mk_getitem_key {ce(t[1])} (Key {o(t[2][0])} {o(t[2][1])} {o(t[2][2])})))"
+            return f"(try1 2 (fun x => mk_getitem_key x (Key {o(t[2][0])} {o(t[2][1])} {o(t[2][2])})) {ce(t[1])})"
         if k == "d_bsel":
-            return f"(oget (mk_bit_select {ce(t[1])} {ce(t[2])} {z(t[3])}))"
+            return f"(try2 3 (fun x o => mk_bit_select x o {z(t[3])}) {ce(t[1])} {ce(t[2])})"
         if k == "d_wsel":
-            return f"(oget (mk_word_select {ce(t[1])} {ce(t[2])} {z(t[3])}))"
+            return f"(try2 3 (fun x o => mk_word_select x o {z(t[3])}) {ce(t[1])} {ce(t[2])})"
         if k == "d_mux":
             return f"(mk_mux {ce(t[1])} {ce(t[2])} {ce(t[3])})"
         if k == "d_array":
-            return "(mk_array [" + "; ".join(ce(x) for x in t[1]) + f"] {ce(t[2])})"
+            return "(mk_array_raw [" + "; ".join(ce(x) for x in t[1]) + f"] {ce(t[2])})"
+        if k == "d_array2":
+            rows = "[" + "; ".join("[" + "; ".join(ce(x) for x in row) + "]" for row in t[1]) + "]"
+            if t[3][0] == "pi":
+                return f"(try1 3 (fun x => mk_array2_int {rows} x {z(t[3][1])}) {ce(t[2])})"
+            return f"(mk_array2 {rows} {ce(t[2])} {ce(t[3])})"
         raise ValueError(k)
     if k == "c":
         return f"(EConst {z(t[1])} (Sh {z(t[2])} {blit(t[3])}))"
+    if k in ("pi", "ca"):
+        return f"(mk_const_auto {z(t[1])})"
+    if k == "en":
+        return f"(mk_enum_const {zlist(t[2])} {z(t[1])})"
     if k == "s":
         w, s = sigs[t[1]]
         return f"(ESig {t[1]} (Sh {z(w)} {blit(s)}))"
@@ -249,13 +328,11 @@ def build(t, sigobjs):
         if k == "d_rep":
             return b(t[1]).replicate(t[2])
         if k == "d_match":
-            return b(t[1]).matches(*t[3])        # t[3]: the patterns as written by the user; t[2]: normalised
+            return b(t[1]).matches(*[build_pat(p) for p in t[3]])    # t[3]: the patterns as written by the user
         if k == "d_idx":
             return b(t[1])[t[2]]
         if k == "d_slice":
             return b(t[1])[t[2]:t[3]]
-        if k == "d_step":
-            return b(t[1])[slice(*t[5])]         # t[5]: the Python slice as [start, stop, step]
         if k == "d_key":
             return b(t[1])[slice(*t[2])]
         if k == "d_bsel":
@@ -267,9 +344,18 @@ def build(t, sigobjs):
         if k == "d_array":
             from amaranth.hdl import Value
             return Value.cast(Array([b(x) for x in t[1]])[b(t[2])])
+        if k == "d_array2":
+            from amaranth.hdl import Value
+            return Value.cast(Array([Array([b(x) for x in row]) for row in t[1]])[b(t[2])][b(t[3])])
         raise ValueError(k)
     if k == "c":
         return Const(t[1], Shape(t[2], bool(t[3])))
+    if k == "pi":
+        return t[1]                          # a bare Python int: the API casts it
+    if k == "ca":
+        return Const(t[1])
+    if k == "en":
+        return enum_member(t[1], t[2], t[3])
     if k == "s":
         return sigobjs[t[1]]
     if k == "o1":
@@ -317,9 +403,37 @@ def rand_value(rng, w, sg):
 
 
 class Gen:
-    def __init__(self, rng, sigs, maxw=8, maxtotal=40, malformed=False, derived=False):
+    def __init__(self, rng, sigs, maxw=8, maxtotal=40, malformed=False, derived=False, ext=False):
+        """ext=True additionally draws (the random stream of ext=False is unchanged): operands that are Python ints /
+        enum members / Const(v), shift amounts up to 5 bits, Const and enum patterns in matches(), Arrays with more
+        elements than the index addresses, signed Array indices, nested Arrays, int arms of Mux and int offsets"""
         self.rng, self.sigs, self.maxw, self.maxtotal, self.malformed = rng, sigs, maxw, maxtotal, malformed
         self.derived = derived
+        self.ext = ext
+
+    def small_int(self):
+        r = self.rng
+        c = r.random()
+        if c < 0.5:
+            return r.randrange(-4, 9)
+        if c < 0.8:
+            k = r.randrange(0, self.maxw + 2)
+            return r.choice((1, -1)) * ((1 << k) + r.randrange(-1, 2))
+        return r.choice((0, 1, -1, 2, 255, -128))
+
+    def nonvalue(self):
+        """an operand the API casts: a Python int or an enum member"""
+        r = self.rng
+        if r.random() < 0.8:
+            return ["pi", self.small_int()]
+        ms = sorted({r.randrange(-5, 12) for _ in range(r.randrange(1, 4))})
+        return ["en", r.choice(ms), ms, r.choice("EI")]
+
+    def arm(self, d):
+        """an arm of a Mux / element of an Array / part of a Cat: a Value, or (ext) something the API casts"""
+        if self.ext and self.rng.random() < 0.2:
+            return self.nonvalue()
+        return self.expr(d)
 
     def derived_node(self, d):
         r = self.rng
@@ -344,7 +458,10 @@ class Gen:
         if c in (13, 14):
             # bit_select / word_select with a constant or a variable offset; constant offsets near the fold boundary
             pw = r.randrange(0 if c == 13 else 1, 5)
-            if r.random() < 0.6:
+            if self.ext and r.random() < 0.25:
+                lim = (w - pw) if c == 13 else (w // pw - 1)
+                off = ["pi", max(0, lim + r.randrange(-1, 2))]       # value.bit_select(3, w)
+            elif r.random() < 0.6:
                 ow = r.randrange(1, 4)
                 lim = (w - pw) if c == 13 else (w // pw - 1)
                 v = min((1 << ow) - 1, max(0, lim + r.randrange(-1, 2)))
@@ -364,7 +481,15 @@ class Gen:
                 w, sg = 4, False
             raw, norm = [], []
             for _ in range(r.randrange(0, 3)):
-                if r.random() < 0.5:
+                if self.ext and r.random() < 0.3:
+                    # a constant-castable pattern that is not an int: a Const of any shape, or an enum member
+                    if r.random() < 0.6:
+                        pw_, psg_ = rand_shape(r, max(1, w + 1), allow_zero=False)
+                        raw.append(["pc", r.randrange(-(1 << w) - 1, (1 << w) + 2), pw_, psg_])
+                    else:
+                        ms = sorted({r.randrange(-(1 << max(0, w - 1)) - 1, (1 << w) + 1) for _ in range(r.randrange(1, 4))})
+                        raw.append(["pe", r.choice(ms), ms, r.choice("EI")])
+                elif r.random() < 0.5:
                     v = r.randrange(-(1 << w) - 1, (1 << w) + 2)
                     raw.append(v)
                     lo, hi = (-(1 << (w - 1)), 1 << (w - 1)) if sg else (0, 1 << w)
@@ -399,17 +524,42 @@ class Gen:
         if c == 9:
             a, b = r.randrange(-w - 1, w + 2), r.randrange(-w - 1, w + 2)
             st = r.choice((-3, -2, -1, 2, 3))
-            rg = range(*slice(a, b, st).indices(w))
-            return ["d_step", e, rg.start, rg.step, len(rg), [a, b, st]]
+            return ["d_key", e, [a, b, st]]          # the slice object as written; slice.indices is the model's job
         if c == 10:
+            if self.ext:
+                return ["d_mux", self.expr(d - 1), e, self.arm(d - 1)] if r.random() < 0.5 else \
+                       ["d_mux", self.expr(d - 1), self.arm(d - 1), e]
             return ["d_mux", self.expr(d - 1), e, self.expr(d - 1)]
+        if self.ext:
+            return self.array_node(d, e)
         idx = self.unsigned_small(d - 1, 2)
         # every element reachable (ArrayProxy.as_value() drops unreachable ones without checking them)
         n = min(r.randrange(1, 6), 1 << max(0, pyshape(idx, self.sigs)[0]))
         return ["d_array", [e] + [self.expr(d - 1) for _ in range(n - 1)], idx]
 
+    def array_node(self, d, e):
+        """Array indexing in full: index of any small shape (signed: only the non-negative values address elements),
+        more elements than the index addresses, Python-int elements, Arrays of Arrays indexed twice"""
+        r = self.rng
+        def index():
+            i = self.unsigned_small(d - 1, 2)
+            if r.random() < 0.25 and pyshape(i, self.sigs)[0] > 0:
+                i = ["o1", "s", i]
+            return i
+        if r.random() < 0.25:
+            rows = [[self.arm(d - 1) for _ in range(r.randrange(1, 4))] for _ in range(r.randrange(1, 4))]
+            rows[0][0] = e
+            if r.random() < 0.3:
+                k = r.randrange(-min(map(len, rows)), min(map(len, rows)))
+                return ["d_array2", rows, index(), ["pi", k]]
+            return ["d_array2", rows, index(), index()]
+        n = r.randrange(1, 7)
+        return ["d_array", [e] + [self.arm(d - 1) for _ in range(n - 1)], index()]
+
     def leaf(self):
         r = self.rng
+        if self.ext and r.random() < 0.1:
+            return ["ca", self.small_int()]
         if r.random() < 0.7 and self.sigs:
             return ["s", r.randrange(len(self.sigs))]
         w, sg = rand_shape(r, self.maxw)
@@ -458,11 +608,21 @@ class Gen:
             op = r.choice(OP2)
             a = self.expr(d - 1)
             if op in ("<<", ">>"):
-                b = self.unsigned_small(d - 1, 3 if op == "<<" else 4)
+                b = self.unsigned_small(d - 1, (3 if op == "<<" else 4) if not (self.ext and r.random() < 0.3) else 5)
                 if self.malformed and r.random() < 0.3:
                     b = ["o1", "s", ["sl", self.expr(d - 1), 0, 0]] if False else ["c", -1, 2, True]
+                if self.ext and r.random() < 0.3:
+                    if r.random() < 0.6:
+                        b = ["pi", r.choice((0, 1, 2, 3, 7, 16, 17, 31)) if not self.malformed or r.random() < 0.6 else -1]
+                    elif pyshape(b, self.sigs)[0] <= 5:
+                        a = self.nonvalue()             # 3 << value
             else:
                 b = self.expr(d - 1)
+                if self.ext and r.random() < 0.3:
+                    if r.random() < 0.5:
+                        b = self.nonvalue()             # value + 1
+                    else:
+                        a = self.nonvalue()             # 1 - value (reflected operator)
             return ["o2", op, a, b]
         if c < 0.72:
             a = self.expr(d - 1)
@@ -487,6 +647,8 @@ class Gen:
                     off = ["c", -1, 2, True]
             return ["pt", a, off, w, stride]
         if c < 0.92:
+            if self.ext:
+                return ["cat", [self.arm(d - 1) for _ in range(r.randrange(0, 4))]]
             return ["cat", [self.expr(d - 1) for _ in range(r.randrange(0, 4))]]
         test = self.unsigned_small(d - 1, 3) if r.random() < 0.7 else self.expr(d - 1)
         tw = max(0, pyshape(test, self.sigs)[0])
@@ -524,13 +686,17 @@ def sig_ids(t):
     if k.startswith("d_"):
         out = []
         for x in t[1:]:
-            if isinstance(x, list) and x and isinstance(x[0], str) and (x[0] in ("c", "s", "o1", "o2", "sl", "pt", "cat", "sw") or x[0].startswith("d_")):
+            if isinstance(x, list) and x and isinstance(x[0], str) and (x[0] in ("c", "s", "o1", "o2", "sl", "pt", "cat", "sw", "pi", "ca", "en") or x[0].startswith("d_")):
                 out += sig_ids(x)
             elif k == "d_array" and isinstance(x, list) and x and isinstance(x[0], list):
                 for y in x:
                     out += sig_ids(y)
+            elif k == "d_array2" and isinstance(x, list) and x and isinstance(x[0], list):
+                for row in x:
+                    for y in row:
+                        out += sig_ids(y)
         return out
-    if k == "c":
+    if k in ("c", "pi", "ca", "en"):
         return []
     if k == "s":
         return [t[1]]
